@@ -140,4 +140,20 @@ PLANS = {
   'deadline': {'quick': 400, 'thorough': 2000}, 'exhaustive': True,
   'assumptions': A_COMMON + ["required-ISA sets are measured on executed paths only (under-approximation: never a false alarm)", "AES-NI, PCLMULQDQ, SSSE3, POPCNT, BMI1/2 are not among the bits the ladders test and are outside the property's quantifier", "SSE4.1/4.2 are the documented minimum of the AES entry points, which have no base fallback"],
  },
+ 'C16': {
+  'level': 'exploration',
+  'steps': [{'engine': 'e4_api', 'variant': 'V', 'args': ['--mode=lattice'], 'shards': 8}],
+  'eval_stats': ['lattice_cases', 'twin_pairs'], 'distinct_key': 'case',
+  'rule': "argument-lattice enumeration over the 70 catalogued isal_ entry points (isal_crypto_get_version* take no checked arguments): all 2^k subsets of the k pointer arguments set to NULL x (all scalars valid, then each boundary value of each scalar in turn: lengths 0/1/15/16/17/MAX+1, tag lengths 0/4/8/12/15/16/17, window 0/1/48/49/2^32-1, flags 0..4/0x10/0xFF, XTS lengths 0/1/15/16/17/2^24+1/2^40); expectation from a transcription of the header documentation, three-valued (must-succeed / must-fail / contract-silent); in must-fail cases every non-NULL pointer argument is aimed at a PROT_NONE region so that any dereference before the refusal faults (a submit with invalid flags is refused through its context, which is therefore real); stateful entries are prepared with valid internal calls; plus legacy/isal_ twin pairs on identical valid inputs with byte-wise comparison of all outputs",
+  'bound': {'quick': 'full lattice (exhaustive), 6 length classes for twins', 'thorough': 'same'},
+  'deadline': {'quick': 120, 'thorough': 600}, 'assumptions': A_COMMON + ["the documented domain is transcribed by hand from include/*.h; where the headers are silent (e.g. NULL data pointer with length 0, tag length 4) either outcome is accepted"],
+ },
+ 'C13': {
+  'level': 'model_checking',
+  'steps': [{'engine': 'e4_api', 'variant': 'VF', 'args': ['--mode=fips'], 'shards': 16}],
+  'eval_stats': ['transitions'], 'distinct_key': 'histories', 'state_stats': ['states'], 'transition_stats': ['transitions'],
+  'rule': "FIPS_MODE build with the self-test bodies redirected (objcopy --redefine-sym on a private copy of self_tests.o) to shims that count entries and return scripted outcomes whose failure values are calibrated from the genuine _aes_self_tests/_sha_self_tests run over a deliberately mis-bound primitive; explored: initial latch state {not run, passed, failed via asm_set_self_tests_status(1), failed via AES outcome, failed via SHA outcome} x outcome sequences of length 2 over {pass, AES fails, SHA fails} x first call e1 in all 70 catalogued entry points with valid arguments x second call e2 (quick: every 6th, rotating; thorough: all 70); oracle: 3-state reference machine - approved entry refused with ISAL_CRYPTO_ERR_SELF_TEST and outputs bytewise untouched whenever the self-tests have failed or fail now, self-tests entered exactly once by the first approved call and never again, 0 after a pass, non-approved entries always ISAL_CRYPTO_ERR_FIPS_INVALID_ALGO, all eight XTS entries refuse key1 == key2 (raw and expanded) in every latch state",
+  'bound': {'quick': 'two-step histories with a rotating 1/6 subset of second calls', 'thorough': 'all two-step histories'},
+  'deadline': {'quick': 200, 'thorough': 1500}, 'assumptions': A_COMMON + ["the self-test bodies are replaced by shims (what is verified is the latch and the gates, not the known-answer tests themselves)"],
+ },
 }
